@@ -39,11 +39,11 @@ pub struct Retransmits { pub max_data: bool, pub max_stream_data: StreamIdSet }
 /// opaque here (its arithmetic is verified in unit streams_state): freeing a receive half, connection-level credit, stream storage
 pub struct StreamsState { pub stream_receive_window: u64, pub inner: StreamsInner }
 impl StreamsState {
-    pub uninterp spec fn freed_count(&self) -> nat;
+    pub open spec fn freed_count(&self) -> nat { inner_freed(self.inner) }
     /// total connection-level credit returned through add_read_credits so far
-    pub uninterp spec fn credits(&self) -> nat;
-    /// the receive half stored for a stream
-    pub uninterp spec fn stored(&self, id: StreamId) -> Option<super::code::Recv>;
+    pub open spec fn credits(&self) -> nat { inner_credits(self.inner) }
+    /// the receive half stored for a stream (once a lazily created one has been materialised)
+    pub open spec fn stored(&self, id: StreamId) -> Option<super::code::Recv> { inner_stored(self.inner, id) }
     #[verifier::external_body] pub fn stream_recv_freed(&mut self, id: StreamId, recv: super::code::StreamRecv)
         ensures final(self).freed_count() == old(self).freed_count() + 1, final(self).credits() == old(self).credits(),
             final(self).stream_receive_window == old(self).stream_receive_window { unimplemented!() }
@@ -55,6 +55,45 @@ impl StreamsState {
         ensures final(self).credits() == old(self).credits() + credits, final(self).freed_count() == old(self).freed_count(),
             final(self).stream_receive_window == old(self).stream_receive_window, forall|i: StreamId| final(self).stored(i) == old(self).stored(i) { unimplemented!() }
 }
+pub uninterp spec fn inner_freed(i: StreamsInner) -> nat;
+pub uninterp spec fn inner_credits(i: StreamsInner) -> nat;
+pub uninterp spec fn inner_stored(i: StreamsInner, id: StreamId) -> Option<super::code::Recv>;
+/// `streams.recv.entry(id)` when occupied: exclusive access to one stream's slot (`fut` is a prophecy: the storage once the entry is
+/// gone; same modelling as in unit streams_state)
+#[verifier::external_body] pub struct RecvOcc<'a> { m: &'a mut StreamsInner }
+impl<'a> RecvOcc<'a> {
+    pub uninterp spec fn cur(&self) -> super::code::Recv;
+    pub uninterp spec fn key(&self) -> StreamId;
+    pub uninterp spec fn base(&self) -> StreamsInner;
+    pub uninterp spec fn fut(&self) -> StreamsInner;
+    pub uninterp spec fn removed(&self) -> bool;
+    /// `get_or_insert_recv(window)(entry.get_mut())`
+    #[verifier::external_body] pub fn get_recv<'b>(&'b mut self, window: u64) -> (r: &'b mut super::code::Recv)
+        requires !old(self).removed()
+        ensures *r == old(self).cur(), final(self).cur() == *final(r), final(self).key() == old(self).key(), final(self).fut() == old(self).fut(),
+            final(self).base() == old(self).base(), !final(self).removed()
+    { unimplemented!() }
+    /// `entry.remove().unwrap().into_inner()` (borrowing instead of consuming: see the note on RecvOcc::remove in unit streams_state)
+    #[verifier::external_body] pub fn take(&mut self) -> (r: Box<super::code::Recv>)
+        requires !old(self).removed()
+        ensures *r == old(self).cur(), final(self).removed(), final(self).key() == old(self).key(), final(self).fut() == old(self).fut(), final(self).base() == old(self).base()
+    { unimplemented!() }
+}
+/// when the entry is gone the storage holds its (possibly modified) stream, or nothing for that id if it was taken; nothing else moved
+#[verifier::external_body]
+pub broadcast proof fn axiom_recv_occ_resolved<'a>(e: RecvOcc<'a>)
+    ensures #[trigger] has_resolved(e) ==> inner_stored(e.fut(), e.key()) == (if e.removed() { None } else { Some(e.cur()) })
+        && (forall|i: StreamId| i != e.key() ==> inner_stored(e.fut(), i) == inner_stored(e.base(), i))
+        && inner_credits(e.fut()) == inner_credits(e.base()) && inner_freed(e.fut()) == inner_freed(e.base())
+{}
+/// `match streams.recv.entry(id) { Occupied(e) => e, Vacant(_) => .. }`
+#[verifier::external_body]
+pub fn recv_occupied<'a>(m: &'a mut StreamsInner, id: StreamId) -> (r: Option<RecvOcc<'a>>)
+    ensures match r {
+        Some(e) => inner_stored(*old(m), id) == Some(e.cur()) && e.key() == id && *final(m) == e.fut() && e.base() == *old(m) && !e.removed(),
+        None => inner_stored(*old(m), id).is_none() && *final(m) == *old(m),
+    }
+{ unimplemented!() }
 /// `self.streams.recv.insert(self.id, Some(StreamRecv::Open(rs)))`: the stream goes back into storage
 #[verifier::external_body] pub fn recv_put(st: &mut StreamsState, id: StreamId, rs: Box<super::code::Recv>)
     ensures final(st).stored(id) == Some(*rs), forall|i: StreamId| i != id ==> final(st).stored(i) == old(st).stored(i),
@@ -88,7 +127,7 @@ impl Assembler {
     #[verifier::external_body] pub fn ensure_ordering(&mut self, ordered: bool) -> (r: Result<(), IllegalOrderedRead>)
         requires old(self).wf_spec()
         ensures final(self).wf_spec(), final(self).bytes_read_spec() == old(self).bytes_read_spec(), final(self).end_spec() == old(self).end_spec(),
-            match r { Ok(_) => final(self).ordered_spec() == ordered, Err(_) => ordered && !old(self).ordered_spec() && final(self).ordered_spec() == old(self).ordered_spec() }
+            match r { Ok(_) => final(self).ordered_spec() == ordered && (old(self).empty_spec() ==> final(self).empty_spec()), Err(_) => ordered && !old(self).ordered_spec() && *final(self) == *old(self) }
     { unimplemented!() }
     /// a read hands out at most max_length bytes of data that was inserted (so never beyond `end`), advances bytes_read by exactly
     /// what it hands out, in ordered mode hands out the chunk at the read index, and hands out nothing when nothing is buffered
@@ -128,6 +167,20 @@ use super::*; use super::shims::*;
 //@ extract quinn-proto/src/connection/streams/recv.rs :: enum ReadError
 //@ derive
 //@ end
+//@ extract quinn-proto/src/connection/streams/recv.rs :: enum ReadableError
+//@ derive
+//@ end
+impl vstd::std_specs::convert::FromSpecImpl<IllegalOrderedRead> for ReadableError {
+    open spec fn obeys_from_spec() -> bool { true }
+    open spec fn from_spec(v: IllegalOrderedRead) -> Self { ReadableError::IllegalOrderedRead }
+}
+impl From<IllegalOrderedRead> for ReadableError {
+//@ extract quinn-proto/src/connection/streams/recv.rs :: impl From<IllegalOrderedRead> for ReadableError::fn from
+//@ ret r
+//@ contract
+        ensures r == ReadableError::IllegalOrderedRead
+//@ end
+}
 //@ extract quinn-proto/src/connection/streams/recv.rs :: struct Chunks
 //@ end
 impl Default for RecvState {
@@ -307,6 +360,34 @@ impl<'a> Chunks<'a> {
         // `ordered` is what Chunks::new (hash-map glue, not extracted) passed to Assembler::ensure_ordering before building the value
         match self.state { ChunksState::Readable(rs) => rs.wf() && (rs.state is ResetRecvd ==> self.read == 0) && self.ordered == rs.assembler.ordered_spec(), _ => true }
     }
+//@ extract quinn-proto/src/connection/streams/recv.rs :: impl Chunks<'a>::fn new
+//@ props C11 C01
+//@ ret res
+//@ replace ws:match streams.recv.entry(id) { Entry::Occupied(entry) => entry, Entry::Vacant(_) => return Err(ReadableError::ClosedStream), } ==>> match recv_occupied(&mut streams.inner, id) { Some(entry) => entry, None => return Err(ReadableError::ClosedStream) }
+//@ replace get_or_insert_recv(streams.stream_receive_window)(entry.get_mut()) => entry.get_recv(streams.stream_receive_window)
+//@ replace entry.remove().unwrap().into_inner() => entry.take()
+//@ at-start
+        broadcast use axiom_recv_occ_resolved;
+//@ before Ok(Self {
+        proof {
+            assert(recv.wf());
+            assert(recv.assembler.ordered_spec() == ordered);
+            assert(streams.stored(id).is_none());
+        }
+//@ contract
+        requires old(streams).stored(id) matches Some(r0) ==> r0.wf(),
+        ensures match res {
+            // a read takes the receive half out of storage (finalize puts it back) in the mode asked for
+            Ok(c) => c.inv() && c.id == id && c.ordered == ordered && c.read == 0
+                && (old(streams).stored(id) matches Some(r0) && !r0.stopped && (c.state matches ChunksState::Readable(rs) && rs.stopped == r0.stopped && rs.end == r0.end && rs.state == r0.state))
+                && c.streams.stored(id).is_none() && (forall|i: StreamId| i != id ==> c.streams.stored(i) == old(streams).stored(i))
+                && c.streams.credits() == old(streams).credits(),
+            // a refused read -- unknown or stopped stream, or an ordered read after unordered ones -- leaves every stream where it was
+            Err(e) => (forall|i: StreamId| final(streams).stored(i) == old(streams).stored(i)) && final(streams).credits() == old(streams).credits()
+                && final(streams).freed_count() == old(streams).freed_count()
+                && (e is IllegalOrderedRead ==> ordered && (old(streams).stored(id) matches Some(r0) && !r0.assembler.ordered_spec())),
+        }
+//@ end
 //@ extract quinn-proto/src/connection/streams/recv.rs :: impl Chunks<'a>::fn finalize_inner
 //@ props C06 C01
 //@ ret r
